@@ -121,7 +121,7 @@ EXTRA = {
  "C09": "hand-written JSON like-patterns the encoder never writes; decoding into populated cedar.Policy / ast.Policy receivers; every policy JSON in six other spellings (indent, member order, escaped names, escaped solidus, all-\\u strings); policy sets of 0..2049 policies (thorough 8193); deep chains; encodings handed out earlier unchanged by later calls; records that look like implicit entity / extension spellings as value literals; decode inputs overwritten after the call",
  "C10": "every Unicode scalar through decoders then all encoders; stall detector (a non-returning case is confirmed in fresh subprocesses and reported as hang / stack-overflow); amplification sweep: ten work-amplifying shapes (like patterns with n wildcards over 2n near misses, wide sets/records, hierarchy ladders) at n=4..64 (thorough 256) with a 30 s stall threshold; nine extension-literal templates with every field and pair of fields at, below and above its range through every decoder; escaped library panics are violations",
  "C11": "containers of 0..257 members in three insertion orders; internal/mapset and EntityUIDSet against a Go-map model; degenerate initial states (empty, nil, single) of the immutability BFS; decoding into used receivers; a by-value copy of a decoded value is unchanged by a later decode into the variable; returned bytes owned by the caller; every value decoder reads a private buffer that is overwritten afterwards",
- "C12": "every year in [-820,820] (thorough +-2420) x month ends; durations with every unit at its own maximum +-1; all scalars through String/Set/Record renderings; zero-padded duration quantities; decimal spellings; Go conversions (Duration.Duration, Datetime.Time) at the extremes; IPv4-mapped / compatible / NAT64 and 18 more ip spellings; every check runs in a non-UTC local time zone",
+ "C12": "every year in [-820,820] (thorough +-10500, every zone offset to the minute) x month ends; durations with every unit at its own maximum +-1; all scalars through String/Set/Record renderings; zero-padded duration quantities; decimal spellings; Go conversions (Duration.Duration, Datetime.Time) at the extremes; IPv4-mapped / compatible / NAT64 and 18 more ip spellings; every check runs in a non-UTC local time zone",
  "C13": "extension- and entity-typed tags of attribute-less entities; decoding into used receivers; member names of the escapes spelled with \\uXXXX; every value / entity JSON and every typed extension form in six other spellings; entities of 0..129 attributes, tags, parents; calendar / unit grids through JSON; earlier copies unchanged by a later decode; decode inputs overwritten after the call; receivers on which a decode has just failed",
  "C14": "workloads: multi-parent hierarchies, evaluator errors over sets, batch with colliding set members; names that differ only in letter case in every keyed collection (policies, entities, schema); batch request error messages; failed decodes leave the same state on every run",
  "C15": "entity-type unions; guards across when/unless clauses; action-in guards over sets mixing literals and non-literals; every &&/|| tree and if-then-else of up to four has-guards over three optional attributes; capability keys that collide textually; entity-in guards; sets of entities (empty and non-empty) in the stores; == / != guards typed as singleton booleans over 15 x 15 operand pairs",
